@@ -36,8 +36,17 @@ def judge(sh, p, r, case):
     """the C01 oracle on one monitored run of a conforming program"""
     sh.count("c01.no_error_level_diagnostic")
     if r.outcome != "ok":
-        sh.violation("not_analysed", (r.outcome,) + tuple(r.detail if isinstance(r.detail, tuple) else (str(r.detail)[:60],)),
-                     case, {"outcome": r.outcome, "detail": str(r.detail)[:200]})
+        detail = {"outcome": r.outcome, "detail": str(r.detail)[:200]}
+        sig = (r.outcome,) + tuple(r.detail if isinstance(r.detail, tuple) else (str(r.detail)[:40],))
+        import re
+        m = re.search(r"Unrecognized line \((\d+), (\d+)\)", str(r.detail)) if r.outcome == "fatal" else None
+        if m:
+            # the structure of the line the fatal diagnostic points at
+            ctx = p.context_at(int(m.group(1)), int(m.group(2)))
+            detail.update(ctx)
+            detail.update({"line": int(m.group(1)), "col": int(m.group(2)), "text": p.text().split("\n")[int(m.group(1)) - 1]})
+            sig = ("fatal", "Unrecognized line", ctx.get("line_kind"))
+        sh.violation("not_analysed", sig, case, detail)
         return False
     ok = True
     for d in r.sess.diags:
